@@ -76,6 +76,11 @@ class C21(core.Check):
             ("txp", "uxd", g2, [("a", 2), ("x", "timeout")], ["g", "g", "g"]),
             ("txp", "uxd", g2, [("x", "gaierror")], ["g", "g"]),
             ("tx", g2, [("a", 4)], ["g", "c", "g", "o", ("q", b"while-closed", 2), "r", "g", "g", "g"]),       # closed in between: nothing sent, nothing lost
+            ("tx", g2, [("w",)], ["g", "c", "r", "g", "g"]),                     # a gram held with 0 bytes accepted survives close() / reopen()
+            ("tx", g2, [("w",)], ["o", "c", "r", "c", "r", "g", "g"]),           # … also through MemoerDoer.exit() / .enter()
+            ("tx", g2, [("a", 3)], ["g", "c", "r", "g", "g"]),                   # a partly sent gram is continued after the reopening (what the code does today)
+            ("tx", [(b"same-buffer", 1), (b"same-buffer", 2), (b"same-buffer", 3)], [("a", 4), ("w",)], ["g", "g", "g", "g", "g"]),   # one bytearray to three destinations
+            ("tx", [(b"same-buffer", 1)], [], ["g", ("q", b"same-buffer", 2), "g", ("q", b"same-buffer", 1), "o", "g"]),               # … queued again after it was sent
             ("txp", "udp", g2, [("a", 4), ("e", "ENOBUFS")], ["o", "c", "a", "r", "a", "a", "a"]),
         ]
 
@@ -102,6 +107,10 @@ class C21(core.Check):
                 grams.append((b, rng.randrange(1, nd + 1)))
             if grams and rng.random() < 0.2:
                 grams.append(grams[rng.randrange(len(grams))])      # equal grams: duplication must be told from re-sending
+            if grams and rng.random() < 0.25:      # ONE buffer fanned out to several destinations (the adapter queues the same bytearray object)
+                g0 = grams[rng.randrange(len(grams))][0] or b"fanout"
+                for d_ in rng.sample([1, 2, 3, 4], rng.randrange(2, 4)):
+                    grams.insert(rng.randrange(len(grams) + 1), (g0, d_))
             ns = rng.choice([0, 1, 2, 3, 4, 6, 9, 14])
             script = []
             for _ in range(ns):
@@ -123,6 +132,9 @@ class C21(core.Check):
                     calls.append("o")
                 else:
                     calls.append(("q", bytes(rng.randrange(97, 123) for _ in range(rng.randrange(0, 9))), rng.randrange(1, nd + 1)))
+            if script and rng.random() < 0.2:      # a gram HELD by backpressure (nothing or only a part accepted), then the transport is closed and reopened
+                script[0] = rng.choice([("w",), ("a", 0), ("a", 1), ("a", 2)])
+                calls = [rng.choice(["g", "o"]), "c"] + [rng.choice(["g", "o"]) for _ in range(rng.randrange(0, 2))] + ["r"] + calls
             if calls and rng.random() < 0.25:      # the transport is closed for a while and reopened: queue and remainder must survive
                 i = rng.randrange(len(calls))
                 calls[i:i] = ["c"] + [rng.choice(["g", "o"]) for _ in range(rng.randrange(0, 3))] + ["r"]
